@@ -72,6 +72,8 @@ def gen_folded(rng):
     l["kq"] = gen_q(rng, "k")
   else:
     l["dq"] = gen_q(rng, "k")
+    if rng.chance(0.4):
+      l["depth_multiplier"] = rng.pick([2, 3])
   return l
 
 
@@ -92,6 +94,8 @@ def build_layer(l, name):
                                bias_quantizer=q(l.get("bq")), **kw)
   if l["t"] == "QDepthwiseConv2DBatchnorm":
     return qk.QDepthwiseConv2DBatchnorm(l["kernel"],
+                                        depth_multiplier=l.get(
+                                            "depth_multiplier", 1),
                                         depthwise_quantizer=q(l.get("dq")),
                                         bias_quantizer=q(l.get("bq")), **kw)
   if l["t"] == "QActivation":
@@ -126,6 +130,7 @@ def build_source(wspec):
       x = L.DepthwiseConv2D(l["kernel"], strides=l.get("strides", 1),
                             padding=l["padding"], use_bias=l["use_bias"],
                             dilation_rate=l.get("dilation", 1),
+                            depth_multiplier=l.get("depth_multiplier", 1),
                             name="c%d%s" % (i, tag))(x)
     x = L.BatchNormalization(center=l.get("center", True),
                              scale=l.get("scale", True),
@@ -701,6 +706,8 @@ def directed():
               l["kq"] = qk if quant else None
             else:
               l["dq"] = qk if quant else None
+              if i % 2:
+                l["depth_multiplier"] = 2
             ops = [{"k": "INFER", "xseed": 1}]
             for s in range(5):
               ops.append({"k": "TRAIN", "xseed": 10 + s})
@@ -764,6 +771,7 @@ def bucket(scn):
   return [[(l["t"], l.get("folding_mode"), l.get("ema_freeze_delay"),
             l.get("use_bias"), l.get("center"), l.get("scale"),
             l.get("strides"), l.get("padding"), l.get("dilation"),
+            l.get("depth_multiplier"),
             bool(l.get("kq") or l.get("dq")), bool(l.get("bq")))
            for l in w["layers"]], bool(w.get("convert")),
           bool(w.get("branch"))]
